@@ -23,7 +23,7 @@ def protos_of(txt):
                     toks = toks[:-1]                                   # drop the parameter name
                 t = " ".join(toks)
                 al.append(re.sub(r"\s*\*\s*", "*", t).strip())
-        res.append({"name": name, "ret": re.sub(r"\s*\*\s*", "*", re.sub(r"\s+", " ", ret)), "args": al})
+        res.append({"name": name, "upper": name.upper(), "ret": re.sub(r"\s*\*\s*", "*", re.sub(r"\s+", " ", ret)), "args": al})      # "upper": for the case-insensitive languages (IDL)
     return res
 
 
